@@ -1361,6 +1361,23 @@ pub fn run(args: &[String]) {
                 run_history(&cx, &init, &ops, "random", hid, cid, &mut int, &mut lines, &mut st);
                 hid += 1;
             }
+            // (d) somebody else "finalized" one input with garbage: finalize must leave it alone and
+            //     extract must refuse the transaction
+            {
+                let mut g = base_psbt(&case);
+                for i in 0..nin {
+                    prepare_input(&cx, &mut g, i, 2, &mut rng);
+                }
+                let victim = rng.below(nin);
+                if case.inputs[victim].outer.is_segwit() {
+                    g.inputs[victim].final_script_witness = Some(Witness::from_slice(&[vec![1u8, 2, 3]]));
+                } else {
+                    g.inputs[victim].final_script_sig = Some(ScriptBuf::from_bytes(vec![3, 1, 2, 3]));
+                }
+                let ops = vec![Op::Finalize { mall: false, byval: false }, Op::Extract, Op::FinalizeInp { i: victim, mall: false, byval: false }, Op::Extract];
+                run_history(&cx, &g, &ops, "garbage-final", hid, cid, &mut int, &mut lines, &mut st);
+                hid += 1;
+            }
             // (c) the straight path: everything added, finalize, extract (must produce valid spends where possible)
             let mut ops: Vec<Op> = pool_ops.iter().filter(|o| matches!(o.kind(), "update" | "add-sig" | "add-tap-key-sig" | "add-tap-script-sig" | "add-preimage" | "add-unknown")).cloned().collect();
             ops.retain(|o| !matches!(o, Op::Update { i, d } if i != d));
